@@ -38,7 +38,10 @@ def panic_key(events, line, payload):
     a = payload.get("a", "?")
     if a == "connected" and payload.get("pre_conn") in ("Connected", "Initialized"):
         a = "connected-dup"
-    return "%s/%s/%s" % (beh, a, slug)
+    # TLC (TraceNoPanic + Lifecycle.tla) says whether the run up to the panic respected the connection lifecycle a
+    # TcpInterface guarantees; a panic reached by an impossible event sequence is a different class
+    suffix = "" if payload.get("lifecycle_ok") else "/lifecycle-violating"
+    return "%s/%s/%s%s" % (beh, a, slug, suffix)
 
 
 def judge(ctx, bundle, marks):
